@@ -129,7 +129,7 @@ func expectTree(evs []tev) (root *xFrame, ok bool) {
 			if len(stack) == 0 || !started && stack[len(stack)-1].jp == nil {
 				return nil, false
 			}
-			f := &xFrame{Typ: avm.OpCode(e.Typ).String(), Gas: e.Gas, Precompile: e.To == scn.Precompile && (e.Typ == 0xf1 || e.Typ == 0xfa)}
+			f := &xFrame{Typ: avm.OpCode(e.Typ).String(), Gas: e.Gas, Precompile: (e.To == scn.Precompile || e.To == scn.BadPrecompile) && (e.Typ == 0xf1 || e.Typ == 0xfa)}
 			top := stack[len(stack)-1]
 			if top.jp != nil {
 				top.jp.Calls = append(top.jp.Calls, f)
